@@ -219,7 +219,7 @@ pub fn run(run: &Run) {
         });
     }
     for n in 5..=10usize {
-        let fam = alpha::family_capped(n, run.seed, if run.thorough() { 2 } else { 1 }, if run.thorough() { 20000 } else if n <= 8 { 2500 } else { 600 });
+        let fam = alpha::family_capped(n, run.seed, if run.thorough() { 2 } else { 1 }, if run.thorough() { 40000 } else if n <= 8 { 10000 } else { 1500 });
         run.section(&format!("CONVERSION F({}): Esop::from(&lut)", n), false, &format!("|F(n)|={}", fam.len()), fam.len() as u64, 4, |r, l| {
             for k in r {
                 let t = &fam[k as usize];
@@ -238,7 +238,7 @@ pub fn run(run: &Run) {
             }
         }
         let nc = cubes.len() as u64;
-        let maxlen: u32 = if n <= 2 { 3 } else if run.thorough() { 3 } else { 2 };
+        let maxlen: u32 = if n <= 1 { 4 } else if n == 2 { if run.thorough() { 4 } else { 3 } } else if run.thorough() { 3 } else { 2 };
         let mut total = 0u64;
         let mut offs = Vec::new();
         for len in 0..=maxlen {
